@@ -71,6 +71,17 @@ def text_case(draw):
                 for m in spec["mutations"]:
                     if m[0] == s:
                         m[4] = None
+    # times scaled by an exact power of two: order and validity are unchanged, decimals grow
+    k = draw(st.sampled_from([0, 0, 0, 3, 10, 20]))
+    if k:
+        sc = 2.0 ** -k
+        for n in spec["nodes"]:
+            n[1] = F(n[1]) * sc
+        for m in spec["mutations"]:
+            if m[4] is not None:
+                m[4] = F(m[4]) * sc
+        for m in spec["migrations"]:
+            m[5] = F(m[5]) * sc
     return dict(spec=spec, extra_precision=draw(st.sampled_from([0, 0, 1, 3])),
                 withhold_populations=draw(st.integers(0, 4)) == 0,
                 md_redraw=draw(st.lists(st.binary(max_size=6).map(lambda b: b.decode("latin-1")), max_size=4)))
@@ -103,6 +114,7 @@ def run_text(case, ctx):
     ctx.label("precision_0", precision == 0)
     ctx.label("precision_gt_6", precision > 6)
     ctx.label("precision_exact", case["extra_precision"] == 0)
+    ctx.label("node_time_needs_gt_6_decimals", any(decimals_needed(F(n[1])) > 6 for n in spec["nodes"]))
     inds = spec["individuals"]
     L1 = ctx.label("individual_empty_parents_or_location", any(not i[1] or not i[2] for i in inds))
     ctx.label("individual_forward_parent", any(p > j for j, i in enumerate(inds) for p in i[2]))
@@ -332,7 +344,7 @@ SUBCHECKS = [
                   "mutation times in the same file",
              floors={"individual_empty_parents_or_location": 0.3, "empty_allele": 0.15,
                      "known_and_unknown_mutation_times": 0.04, "known_mutation_times": 0.15, "migrations": 0.05,
-                     "non_ascii_allele": 0.15, "precision_0": 0.1, "precision_gt_6": 0.02,
+                     "non_ascii_allele": 0.15, "precision_0": 0.1, "precision_gt_6": 0.05, "node_time_needs_gt_6_decimals": 0.05,
                      "mutation_with_parent": 0.1, "populations_withheld": 0.05,
                      "individual_forward_parent": 0.1, "multi_tree": 0.2}),
     SubCheck("C17.parsers", run_parser, strategy=parser_case, quick=6000, thorough=180000,
